@@ -435,7 +435,7 @@ def semantic_case(seed, idx, tier):
         st["c10.semantic_not_evaluated"] += 1
         return cr
     rf = Rng(seed, "fault", "C10m", idx)
-    plan = scenario.gen_fault_plan(rf, stmt, _nevals(base0), 0, allow_linalg=False)
+    plan = scenario.gen_fault_plan(rf, stmt, _nevals(base0), 0, allow_linalg=False, point_keyed_only=True)
     plan = [f for f in plan if f["kind"] != "cache_off"]
     ra = run_client(stmt, plan, normalize_layout=True) if plan else base0
     if plan:
